@@ -30,7 +30,7 @@ func init() {
 		Checks: map[string]func(*core.Env, []json.RawMessage){"bin": replayC08Bin, "un": replayC08Un},
 		Threshold: func(m *core.Merged) []string {
 			var r []string
-			for _, k := range []string{"op+", "op-", "op*", "op/", "opdiv", "opmod", "overflow-expected", "zero-divisor", "neg", "abs", "round", "floor", "ceiling", "truncate", "carrier:lit", "carrier:sys", "carrier:fhir"} {
+			for _, k := range []string{"op+", "op-", "op*", "op/", "opdiv", "opmod", "overflow-expected", "zero-divisor", "neg", "abs", "round", "floor", "ceiling", "truncate", "carrier:lit", "carrier:sys", "carrier:fhir", "alternating-operand-types", "mixed-items-one-node"} {
 				if m.Cover[k] == 0 {
 					r = append(r, "never observed: "+k)
 				}
@@ -435,6 +435,70 @@ func runC08(env *core.Env) {
 				}
 			}
 		}
+	}
+	// one literal operand, the other arriving through a variable whose type alternates between Integer and
+	// Decimal from one evaluation to the next (one source text, hence - through fx.Eval - also one compiled
+	// expression evaluated many times): the literal must be read afresh each time
+	lits := []numVal{{"1", true}, {"2", true}, {"7", true}, {"2147483647", true}, {"0.5", false}, {"2.0", false}}
+	var alt []numVal
+	for i, v := range vals {
+		if i%7 == 0 || v.Text == "2147483647" || v.Text == "-2147483648" || v.Text == "41" || v.Text == "1.5" {
+			alt = append(alt, v)
+		}
+	}
+	alt = append(alt, numVal{"1.5", false}, numVal{"41", true}, numVal{"2147483647", true}, numVal{"0.25", false}, numVal{"-2147483648", true}, numVal{"3", true})
+	for _, op := range ops {
+		for _, l := range lits {
+			n++
+			if !env.Mine(n) {
+				continue
+			}
+			for k, a := range alt {
+				c08Bin(env, op, a, l, []string{"sys", "fhir"}[k%2], "lit")
+				c08Bin(env, op, l, a, "lit", []string{"fhir", "sys"}[k%2])
+			}
+			env.Cover("alternating-operand-types")
+		}
+	}
+	// the same operator node meeting Decimal and Integer items inside one evaluation
+	for _, c := range []struct {
+		src  string
+		coll system.Collection
+		want []string
+	}{
+		{"%c.select($this + 1)", system.Collection{system.MustParseDecimal("1.5"), system.Integer(41), system.MustParseDecimal("0.5"), system.Integer(2147483647)}, []string{"Decimal(2.5)", "Integer(42)", "Decimal(1.5)"}},
+		{"%c.select($this * 2)", system.Collection{system.MustParseDecimal("1.5"), system.Integer(21), system.Integer(1073741824)}, []string{"Decimal(3)", "Integer(42)"}},
+		{"%c.select(1 + $this)", system.Collection{&dtpb.Decimal{Value: "1.5"}, &dtpb.Integer{Value: 41}}, []string{"Decimal(2.5)", "Integer(42)"}},
+		{"%c.select($this - 1)", system.Collection{system.MustParseDecimal("0.5"), system.Integer(-2147483648), system.Integer(43)}, []string{"Decimal(-0.5)", "Integer(42)"}},
+		{"%c.where($this + 1 = 42)", system.Collection{system.MustParseDecimal("41.0"), system.Integer(41), system.Integer(2147483647)}, []string{"Decimal(41)", "Integer(41)"}},
+	} {
+		n++
+		if !env.Mine(n) {
+			continue
+		}
+		func() {
+			defer env.In("un", "probe:"+c.src, numVal{"0", true}, "lit", 0)()
+			env.Case()
+			env.Cover("mixed-items-one-node")
+			r := fx.Eval(env, c.src, nil, nil, []fhirpath.EvaluateOption{evalopts.EnvVariable("c", c.coll)})
+			if r.IsPanic() {
+				env.Violatef(fx.PanicSig("C08", r), "`%s` => %s", c.src, r.Short())
+				return
+			}
+			var got []string
+			for _, it := range r.Items {
+				t := it.T
+				if it.K == "Decimal" {
+					if q, ok := model.ParseNum(t); ok {
+						t = strings.TrimSuffix(strings.TrimRight(q.FloatString(10), "0"), ".")
+					}
+				}
+				got = append(got, it.K+"("+t+")")
+			}
+			if !r.IsValue() || strings.Join(got, ",") != strings.Join(c.want, ",") {
+				env.Violatef("C08/mixed-items/"+c.src, "`%s` over %s: expected [%s] (overflowing items dropped), observed %s", c.src, fx.Render(c.coll).T, strings.Join(c.want, ", "), trunc(r.Short(), 200))
+			}
+		}()
 	}
 	// exactly representable transcendental cases and both-sides-rooted operands
 	for _, c := range []struct{ src, want string }{
